@@ -9,6 +9,7 @@ def run(ctx):
     satlayer.rule_model_width(ctx)
     satlayer.rule_variable_count_monotone(ctx)
     satlayer.rule_n_vars_covers_reservations(ctx)
+    satlayer.rule_header(ctx)  # the text back end declares every variable of the call, assumptions included: its model covers them as the embedded one's does
     satlayer.rule_model_not_truncated(ctx)
     satlayer.rule_reply_is_stdout(ctx)
     ctx.assume("the embedded CaDiCaL solver and the external program decide satisfiability correctly (trusted)")
